@@ -65,7 +65,10 @@ KNOWN = [
            "through an evicted entry are lost or a stale copy is reloaded and acknowledged writes read back old data "
            "(history contains an eviction during a concurrent batch)",
       rules=["ReadData", "Frame", "Reopen"], tags=["hist:eviction_during_concurrency"],
-      reproducer="findings/C06-eviction-race.json", domain="conc"),
+      reproducer="findings/C06-eviction-race.json",
+      reproducers=["findings/C06-eviction-race.json", "findings/C06-slice-eviction-under-concurrency-r0.json",
+                   "findings/C06-slice-eviction-under-concurrency-r1.json",
+                   "findings/C06-slice-eviction-under-concurrency-r2.json"], domain="conc"),
  dict(id="C07-slice-eviction-under-concurrency", property="C07",
       what="same root cause as C06-slice-eviction-under-concurrency: with slices evicted while several tasks run, calls with "
            "valid arguments fail with 'Fail to load l2 table' (entry evicted between insertion and re-lookup) or tasks "
